@@ -294,13 +294,38 @@ func (w *World) loadRenames() {
 			return g
 		}
 		sg, cg := byType(localsWithoutParams(snap)), byType(localsWithoutParams(cur))
+		snapNames := map[string]bool{}
+		for _, l := range [][][2]string{snap.Params, snap.Free, snap.Locals} {
+			for _, x := range l {
+				snapNames[x[0]] = true
+			}
+		}
 		for t, olds := range sg {
 			news := cg[t]
-			if len(news) != len(olds) {
+			if len(news) == len(olds) {
+				for i := range olds {
+					pair(olds[i], news[i])
+				}
 				continue
 			}
-			for i := range olds {
-				pair(olds[i], news[i])
+			// the number of locals of this type changed (one was hoisted, one was dropped): the names that persisted pair
+			// with themselves; the recorded names that are gone pair, in order of appearance, with the names that are new.
+			// A wrong guess cannot make a wrong proof go through: an invariant is proved inductive whatever it mentions.
+			var gone, fresh []string
+			for _, o := range olds {
+				if !curNames[o] {
+					gone = append(gone, o)
+				}
+			}
+			for _, n := range news {
+				if !snapNames[n] {
+					fresh = append(fresh, n)
+				}
+			}
+			if len(gone) <= len(fresh) {
+				for i := range gone {
+					pair(gone[i], fresh[i])
+				}
 			}
 		}
 		if len(m) > 0 {
